@@ -1,5 +1,7 @@
 """Per-property configuration of tools/check."""
 
+REG_TEXT = (" REGISTRY STREAM (stage B2, Model/Jsr.v): generated JSR registries of 1-3 packages x 1-3 versions (yanked or not) x 1-3 files, exports as string/object/odd values (missing target, non-string, array, absolute URL outside the package, unjoinable value), manifests with honest / tampered / unsupported / missing checksums, embedded module info present / absent / stale, a file cache (CacheSetting::Only) holding the same bytes / other bytes / a fault, cached version manifests, stale cached package documents (restart), faults (missing, error, redirect, self-redirect, external, undecodable JSON, module under another final specifier) on package documents, version manifests and files, lockers with matching / mismatching package-manifest and remote entries, prefer_cached_jsr_versions; importing programs use jsr: requirements (mostly satisfiable), sub-path exports, https URLs into the registry, static and dynamic imports, jsr: and registry-URL roots. Every fact about served bytes is computed by the real crates (deserialisers, export(), module_info(), parse_module, VersionReq::matches, Version order, package_url_to_nv). The real graph (entries with error kind / specifier / referrer, source hash, dependencies), redirects, package table (mappings, packages, exports used, jsr dependencies, used yanked), the multiset of loader calls (URL, cache setting, presented checksum) and the locker calls must equal the model's; the model also checks the world hypothesis of the theorems (wf_jworld).")
+
 PROPS = {
     "C15": {
         "harness": "c15",
@@ -134,10 +136,10 @@ PROPS = {
                  "date on/off; (e) the free function resolve_version on explicit sequences with repeats. "
                  "Version::cmp enters as a dense rank (checked to be a total preorder), VersionReq::matches as a "
                  "matrix. non-trivial = case with at least two different outcome classes (unyanked / yanked / dated "
-                 "error / plain error; cutoff in force / not; some / none)"),
+                 "error / plain error; cutoff in force / not; some / none)." + REG_TEXT + " Version flavour: prefer_cached in 50%, stale package documents in 30%"),
         "assumptions": [
             "Version::cmp and VersionReq::matches enter the model as data computed by deno_semver on the case's versions",
-            "graph-level resolution (resolve_jsr_nv, cached-manifest probe, tag rejection, lockfile seeding, used-yanked bookkeeping) is not covered yet: it needs the builder model",
+            "graph-level resolution (resolve_jsr_nv with versions already in the graph, cached-manifest probe incl. memoisation, tag rejection, used-yanked bookkeeping, restart on a stale package document) is decided per case by the registry stream against Model/Jsr.v; lockfile seeding of selections and date cut-offs are not in that stream",
             "the cutoff comparison follows the code (created < cutoff); the boundary is not reported as a violation (DESIGN.md C06)",
             "known finding F-C06a (registry versions that differ in build metadata only: the pick depends on HashMap iteration order) is reported as KNOWN-FINDING",
         ],
@@ -159,9 +161,10 @@ PROPS = {
                  "parse_module for the graph kind; the real builder's graph (entries with structured errors and "
                  "referrers, redirects, per-module dependencies with code/type targets, attributes, dynamic flags, "
                  "external/asset flags, configured imports, has_node, multiset of loader calls) must equal the "
-                 "extracted model's. non-trivial = >= 3 entries and (an error, a redirect or a dynamic dependency)"),
+                 "extracted model's. 20% of the worlds answer 1-2 modules under another final specifier (an existing "
+                 "one or a fresh one that serves the same module). non-trivial = >= 3 entries and (an error, a redirect or a dynamic dependency)." + REG_TEXT),
         "assumptions": [
-            "stage B1: no JSR/npm resolution, no source-phase imports, no source maps, no locker, utf-8 sources",
+            "stage B1 + registry stage B2: no npm resolution, no source-phase imports, no source maps, utf-8 sources",
             "the loader is a function of its arguments",
         ],
         "partial": ["completeness (nothing reachable is absent) is proved for every world (C01_complete); the converse (nothing unreachable is present) is not yet proved and is checked per case (model = real builder; C15/C02 on the same real graphs)"],
@@ -172,7 +175,8 @@ PROPS = {
         "run_module": "Model.Graph Model.Walk Model.RunC15 Model.RunC02 Model.RunC14 Model.Prune Model.RunC17 Model.Builder Model.RunC01 Model.Jsr Model.RunJsr Model.RunJsrAll",
         "run_fn": "run_c03",
         "level": "proof",
-        "pinned_theorems": ["C03_no_pending", "C03_step_invariant", "C03_error_entry"],
+        "pinned_theorems": ["C03_no_pending", "C03_step_invariant", "C03_error_entry",
+                            "C03_registry_no_pending", "C03_registry_errors_under_own_specifier"],
         "rule": ("fault enumeration: EVERY assignment of a response kind {module, missing, load error, external, "
                  "unparsable, self-redirect, redirect to each other specifier} to each of the 4 specifiers of a base "
                  "world (9^4 = 6561 assignments; quick: 1 base world, thorough: 3) x graph kind, plus 2000 (quick) "
@@ -180,12 +184,14 @@ PROPS = {
                  "INTERNAL ERROR, no pending entry, error entries stored under their own specifier with a referrer "
                  "unless reached from a root, fault locality (every module that does not transitively depend on a "
                  "faulted specifier equals its entry in the fault-free build), and equality with the builder model's "
-                 "graph. non-trivial = at least one error entry and one module"),
+                 "graph. non-trivial = at least one error entry and one module." + REG_TEXT + " Fault-heavy flavour (28% per document/file). A case "
+                 "whose real build does not return within the watchdog limit is reported as a violation (non-termination)"),
         "assumptions": [
-            "stage B1 (see C01); JSR/npm registry faults, checksum faults and undecodable bytes are not enumerated yet",
-            "fixed: F-C03b (self-redirect left a pending entry) was found by this machinery and repaired in /repo commit 76358fe",
+            "stage B1 (see C01) and stage B2 (registry); npm resolution failures and undecodable module bytes are not enumerated",
+            "worlds where a module is answered under another final specifier are compared with the model but left out of the fault-locality oracle",
+            "fixed: F-C03b (self-redirect left a pending entry) 76358fe; F-C03c (unjoinable export value panicked) a6fa026; F-C03d (add_dependency panicked on a package never ensured) ccf7036; F-C03e (a build that never returned: two-hop redirect whose end imports the first hop) 50c93c4 - all found by this machinery and repaired in /repo",
         ],
-        "partial": ["termination of the build loop is not proved (fuel; checked per case)", "registry/npm/checksum faults not covered"],
+        "partial": ["termination of the build loop is not proved (fuel; checked per case by the model never running out of fuel and the real build returning under a watchdog)", "npm resolution faults not covered"],
     },
     "C04": {
         "harness": "c04",
@@ -199,13 +205,15 @@ PROPS = {
                  "gated futures, the build future is polled by hand and at each suspension one outstanding load chosen "
                  "by the schedule completes. Serialised graph + every error with its referrer range must be identical "
                  "across all builds, and the reference build must equal the (schedule-free) model's graph. "
-                 "non-trivial = at least 3 loads simultaneously outstanding"),
+                 "non-trivial = at least 3 loads simultaneously outstanding." + REG_TEXT + " Here each registry world (prefer_cached_jsr_versions on in 70%) is "
+                 "additionally built under 8 / 40 completion schedules of ALL its loads (metadata, cache-only probes, content loads): graph, "
+                 "loader-call multiset and locker calls must equal those of the immediately-ready build, which must equal the model's"),
         "assumptions": [
             "the loader is a function of its arguments (a loader whose answers drift between calls makes 'the same sources' meaningless)",
             "single-threaded futures: deno_unsync's spawn is replaced by an inline executor",
             "fixed: F-C04a (HashMap iteration order of dynamic branches/deferred loads decided error referrers) repaired in /repo commit 7535c3a",
         ],
-        "partial": ["JSR content-load queue (FuturesUnordered) and metadata-store futures are not in the scheduler model"],
+        "partial": ["the scheduler model (Sched.v) covers stage B1; for the registry stage schedule independence is decided per case on the real code against the schedule-free model"],
     },
     "C19": {
         "harness": "c19",
@@ -319,7 +327,7 @@ PROPS = {
                             "C07_export_object", "C07_export_object_last_wins", "C07_norm_export_shape",
                             "C07_table_refines", "C07_table_no_panic", "C07_table_mappings",
                             "C07_table_versions_by_name", "C07_table_packages", "C07_table_packages_with_deps",
-                            "C07_table_sets"],
+                            "C07_table_sets", "C07_registry_redirect"],
         "rule": ("four streams by case number. (url) registry URLs as serialised by url::Url (6 plain http(s) directory "
                  "URLs incl. userinfo/port/sub-path, 8 odd ones: no trailing slash, query, fragment, file:, custom scheme) x "
                  "package names (@scope/name from a 6-letter alphabet so prefixes collide, no-@ scopes, 25 adversarial: "
@@ -340,13 +348,13 @@ PROPS = {
                  "accepts/rejects, requirements and name@versions that are Eq-distinct but Ord-equal through build "
                  "metadata); observers mappings, versions_by_name, package_exports, packages_with_deps, is_empty, "
                  "packages_len, package_deps_sum, used_yanked_packages. non-trivial = url: >= 2 accepted and >= 2 rejected "
-                 "URLs; version: both outcomes; exports: a hit and a miss; table: some requirement added twice"),
+                 "URLs; version: both outcomes; exports: a hit and a miss; table: some requirement added twice." + REG_TEXT + " Mapping flavour: few faults, 15% odd exports"),
         "assumptions": [
             "Url::join is modelled only where the WHATWG path state copies its input (http(s) base, characters outside the path percent-encode set, no dot segments, not scheme-like); elsewhere the real package URL enters the judgement as data",
             "PackageSpecifiers::{ensure_package, add_dependency, add_export, add_top_level_package, add_used_yanked_package, top_level_packages} are pub(crate): the real table is driven through add_nv and fill_from_lockfile only; the other operations are covered by the theorems but not by the correspondence until the builder model drives them",
             "known findings F-C07a (loose version text), F-C07b (doubled slash), F-C07c (registry URL that is not a plain directory URL), F-C07d (scheme-like scope) are reported as KNOWN-FINDING; the model/implementation comparison of all values is NOT suspended for them",
         ],
-        "partial": ["builder-level part of C07 (redirect insertion, unknown-export error, which operations the builder issues on the table) is not covered here",
+        "partial": ["builder-level part of C07: the redirect of a jsr: specifier is proved to be the selected version's export URL (C07_registry_redirect); unknown-export errors and the table operations the builder issues are decided per case by the registry stream",
                     "no-misattribution is proved outside four input classes; the unrestricted statement is refuted (4 witnesses)"],
     },
     "C05": {
@@ -355,7 +363,8 @@ PROPS = {
         "run_module": "Model.Graph Model.Walk Model.RunC15 Model.RunC02 Model.RunC14 Model.Prune Model.RunC17 Model.Builder Model.RunC01 Model.RunC19 Model.RunC05 Model.Jsr Model.RunJsr Model.RunJsrAll",
         "run_fn": "run_c05j",
         "pinned_theorems": ["C05_presented", "C05_rejected", "C05_one_retry", "C05_redirect_rejected",
-                            "C05_recorded_once", "C05_recorded_value", "C05_text_hash_refuted"],
+                            "C05_recorded_once", "C05_recorded_value", "C05_text_hash_refuted",
+                            "C05_registry_presents_manifest_checksum"],
         "rule": ("C01 worlds, mostly remote, where 12% of remote sources carry a UTF-8 BOM or are served as UTF-16 "
                  "with a charset header and 15% of remote specifiers serve different bytes under CacheSetting::Reload; "
                  "lockfile absent (15%) or holding entries for ~45% of the remote specifiers (incl. redirecting, missing "
@@ -365,13 +374,13 @@ PROPS = {
                  "checksum) and every set_remote_checksum call. Judged on the real observation by the extracted "
                  "c05_holds; and the same world is built AGAIN on the real code with the lockfile the first build "
                  "produced: no recorded checksum may be rejected for unchanged content. non-trivial = lockfile with "
-                 ">= 1 entry and (an integrity error or a recorded checksum)"),
+                 ">= 1 entry and (an integrity error or a recorded checksum)." + REG_TEXT + " Checksum flavour: always a locker, 30% https imports into the registry"),
         "assumptions": [
             "the loader honours its contract: content whose SHA-256 differs from the presented checksum is rejected with ChecksumIntegrity",
-            "registry (JSR) manifests and package files are not covered (builder stage B2)",
+            "the per-specifier judge of the B1 stream applies to loaders that report redirects as LoadResponse::Redirect (modules answered under another final specifier are covered by the C01/C03 streams and the registry stream)",
             "known finding F-C05a is reported as KNOWN-FINDING",
         ],
-        "partial": ["registry half of C05 (manifest checksums, package file checksums, https URLs into the registry) not modelled yet"],
+        "partial": ["registry half: presentation of manifest checksums is proved (C05_registry_presents_manifest_checksum); package-manifest lockfile checksums (expected value presented, mismatch = integrity error, checksum_for_locker recorded) are decided per case by the correspondence only"],
     },
     "C16": {
         "harness": "c16",
